@@ -233,9 +233,74 @@ pub fn test_tree(c: &TreeCase, ev: &mut Ev, opts: &ModelOpts) -> Result<(), Viol
     Ok(())
 }
 
+/// Programs in which far more expression nodes are evaluated than in any generated case: long
+/// tables of sums, and symbols that are costly to evaluate (a chain of doublings, far below the
+/// tool's limit for a single expression) used several times per line and on many lines.  Values are
+/// known by construction.  (tag, source, flash image, EEPROM image)
+pub fn scale_programs() -> Vec<(String, String, Vec<u8>, Vec<u8>)> {
+    let mut v = vec![];
+    // a table of sums: n lines `.dq 1+1+…+1` (k ones)
+    for (n, k) in [(3000usize, 100usize), (8000, 115)] {
+        let mut src = String::new();
+        let mut code = vec![];
+        for i in 0..n {
+            let kk = k + i % 7;
+            src.push_str(&format!(".dq 1{}\n", "+1".repeat(kk - 1)));
+            code.extend_from_slice(&(kk as u64).to_le_bytes());
+        }
+        v.push((format!("table-of-{}-sums-of-{}-terms", n, k), src, code, vec![]));
+    }
+    // a costly symbol: c_i = c_(i-1) + c_(i-1), value 2^depth, about 3·2^depth nodes per use
+    for (depth, per_line, lines) in [(12usize, 8usize, 20usize), (14, 8, 4), (14, 1, 30), (16, 6, 2)] {
+        let chain: String = ".equ cs0 = 1\n".to_string() + &(1..=depth).map(|i| format!(".equ cs{} = cs{}+cs{}\n", i, i - 1, i - 1)).collect::<String>();
+        let val = 1u64 << depth;
+        let mut src = chain.clone();
+        let (mut code, mut ee) = (vec![], vec![]);
+        for l in 0..lines {
+            let ops: Vec<String> = (0..per_line).map(|j| format!("cs{}+{}", depth, (l + j) % 5)).collect();
+            src.push_str(&format!(".dd {}\n", ops.join(", ")));
+            for j in 0..per_line {
+                code.extend_from_slice(&((val + ((l + j) % 5) as u64) as u32).to_le_bytes());
+            }
+        }
+        src.push_str(".eseg\n");
+        for l in 0..lines {
+            let ops: Vec<String> = (0..per_line).map(|j| format!("cs{}-{}", depth, (l * 3 + j) % 4)).collect();
+            src.push_str(&format!(".dq {}\n", ops.join(", ")));
+            for j in 0..per_line {
+                ee.extend_from_slice(&(val - ((l * 3 + j) % 4) as u64).to_le_bytes());
+            }
+        }
+        v.push((format!("costly-symbol-depth-{}-used-{}-times-per-line-on-{}-lines", depth, per_line, lines), src, code, ee));
+    }
+    v
+}
+
+pub fn scale_leg(total: &mut Ev, sig_prefix: &str) {
+    use rayon::prelude::*;
+    let progs = scale_programs();
+    let results: Vec<(String, String, Result<(), String>, serde_json::Value)> = progs
+        .into_par_iter()
+        .map(|(tag, src, code, ee)| {
+            let chk = crate::oracle::Check::Image { src: src.clone(), code: Some(code), eeprom: Some(ee), ram_filling: None, sizes: None, messages: None };
+            let r = chk.eval();
+            (tag, src, r, chk.to_json())
+        })
+        .collect();
+    for (tag, src, r, replay) in results {
+        total.eval();
+        total.class("many-evaluated-nodes-in-one-build");
+        total.nt(fp(&src));
+        if let Err(why) = r {
+            total.violation(Violation { sig: format!("{}:scale:{}", sig_prefix, if why.contains("differs") { "wrong-value" } else { "rejected" }), what: format!("[{}] {}", tag, crate::run::truncate(&why, 300)), replay });
+        }
+    }
+}
+
 pub fn run(ctx: &Ctx) -> Result<Ev, String> {
     let mut total = Ev::new("C05");
     grid(&mut total);
+    scale_leg(&mut total, "c05");
     let opts = ModelOpts { devices: vec![] };
     let shards = 32;
     let per = if ctx.thorough { 6_000_000 / shards } else { 400_000 / shards } as u32;
